@@ -101,6 +101,8 @@ class Module:
     def __init__(self, **kw):
         self.fields = kw.get("fields", {})      # tracked attribute -> sort
         self.stable = kw.get("stable", {})      # immutable attribute -> sort (or (sort, cls))
+        self.stable_cls = kw.get("stable_cls", {})  # immutable attribute -> class name of the value
+        self.field_cls = kw.get("field_cls", {})  # tracked attribute -> class name of the value
         self.ufuns = kw.get("ufuns", {})        # name -> ([argsorts], ret)
         self.axioms = kw.get("axioms", [])
         self.prelude = kw.get("prelude", "")
